@@ -10,7 +10,7 @@ errkind_matters  whether a different error *kind* for a rejected input breaks th
 PROPS = {
     "C01": dict(groups=["gmtime"], families=["gmtime"], level="exploration", errkind_matters=True, theorems=[], exhaustive=True),
     "C02": dict(groups=["utcnew"], families=["utcnew", "utccmp"], level="exploration", errkind_matters=True, theorems=[]),
-    "C03": dict(groups=["zonelookup"], families=["zone", "lookup", "dtfrom"], level="exploration", errkind_matters=True, theorems=[]),
+    "C03": dict(groups=["zonelookup"], families=["zone", "lookup", "dtfrom"], level="proof", errkind_matters=True, theorems=["TzVerif.C03." + t for t in ['binary_search_correct', 'table_lookup', 'no_transitions', 'conversion_error', 'local_date_time']]),
     "C04": dict(groups=["rulelookup"], families=["zone", "lookup"], level="exploration", errkind_matters=False, theorems=[]),
     "C05": dict(groups=["find", "leap"], families=["zone", "find"], level="exploration", errkind_matters=False, theorems=[]),
     "C06": dict(groups=["find"], families=["zone", "find"], level="exploration", errkind_matters=False, theorems=[]),
@@ -19,14 +19,16 @@ PROPS = {
     "C09": dict(groups=["tzstr"], families=["tzfooter"], level="exploration", errkind_matters=False, theorems=[]),
     "C10": dict(groups=["iana"], families=["tzif", "zone", "lookup", "find"], level="other", errkind_matters=False, theorems=[], special="c10"),
     "C11": dict(groups=["rulenew", "rulepairs"], families=["rulenew"], level="exploration", errkind_matters=True, theorems=[], exhaustive=True),
-    "C12": dict(groups=["leap"], families=["zone", "lookup", "find", "dtfrom"], level="exploration", errkind_matters=False, theorems=[]),
+    "C12": dict(groups=["leap"], families=["zone", "lookup", "find", "dtfrom"], level="proof", errkind_matters=False, theorems=["TzVerif.C12." + t for t in ['to_utc_correct', 'takes_effect_exactly', 'to_utc_monotone', 'to_count_monotone', 'roundtrip', 'to_count_total', 'inserted_shares', 'deleted_skips', 'legacy_counterexample']]),
     "C13": dict(groups=["zonenew", "lttnew"], families=["zonenew", "lttnew", "zone"], level="exploration", errkind_matters=True, theorems=[]),
     "C14": dict(groups=["dt", "zonelookup", "find"], families=["dtnew", "dtfromlocal", "dttn", "dtcmp", "dtfrom", "find"], level="exploration", errkind_matters=False, theorems=[]),
     "C15": dict(groups=["threads"], families=["threads", "lookup", "find", "findn", "dtfrom", "tzifgen"], level="other", errkind_matters=False, theorems=[], special="c15"),
-    "C16": dict(groups=["tn", "dt"], families=["utctn", "dttn", "utcnew"], level="exploration", errkind_matters=False, theorems=[]),
-    "C17": dict(groups=["findn"], families=["findn", "find", "zone"], level="exploration", errkind_matters=False, theorems=[]),
+    "C16": dict(groups=["tn", "dt"], families=["utctn", "dttn", "utcnew"], level="proof", errkind_matters=False,
+                theorems=["TzVerif.C16." + t for t in ["split_correct", "split_range", "recombine", "roundtrip", "roundtrip'", "recombine_fits_i128",
+                                                       "utc_from_total", "dt_from_total_local", "dt_from_total_zone", "nanoseconds_refused"]]),
+    "C17": dict(groups=["findn"], families=["findn", "find", "zone"], level="proof", errkind_matters=False, theorems=["TzVerif.C17." + t for t in ['push_all', 'tail_untouched', 'accessors_agree', 'same_search']]),
     "C18": dict(groups=["fmt"], families=["fmt"], level="exploration", errkind_matters=False, theorems=[]),
     "C19": dict(groups=["core"], families=["utcnew", "utccmp", "utctn", "fmt", "dtnew", "dtfromlocal", "dttn", "dtcmp", "lttnew", "rulenew", "zone", "lookup", "dtfrom", "zonenew", "find", "findn"],
                 level="translation_validation", errkind_matters=True, theorems=[], special="c19", build_is_check=True),
-    "C20": dict(groups=["resolve"], families=["resolve"], level="exploration", errkind_matters=True, theorems=[]),
+    "C20": dict(groups=["resolve"], families=["resolve"], level="proof", errkind_matters=True, theorems=["TzVerif.C20." + t for t in ["relative_lookup","absolute_lookup","empty_refused","localtime_value","colon_value","plain_value","only_candidates","go_spec"]]),
 }
